@@ -214,7 +214,47 @@ RULE = ("random layers: 1..4 modes of size 1..5 (rectangular size_in/size_out), 
         "constructed in the other dtype and converted with .double() / .float() / .to(dtype) / deepcopy (weights with ~30 significant bits, 1e-12); "
         "non-trivial = some interior rank > 1; distinct = distinct (structure, dtype) key")
 
+def post(V, rng, tier):
+    """the gradients autograd accumulates in the layer's cores against Model/CoreGrad.v (theorems C20_operator_core_grad / C15_weighted_sum_core_grad):
+    d/dG_k of sum(Wt * forward(X)) is core_grad of the merged-mode train of W with the weights w[(m,n)..] = sum_b Wt[b,m..] X[b,n..]; integer data, exact"""
+    import torch, torchtt
+    cases, metas = [], []
+    for j in range(12 if tier == "quick" else 120):
+        d = rng.choice([1, 2, 3]); so = [rng.choice([1, 2, 3]) for _ in range(d)]; si = [rng.choice([1, 2, 3]) for _ in range(d)]
+        rk = [1] + [rng.choice([1, 2]) for _ in range(d - 1)] + [1]; nb = rng.choice([0, 1, 2]); B = [rng.choice([1, 2]) for _ in range(nb)]
+        dtype = torch.float64 if j % 3 else torch.float32
+        try:
+            L = torchtt.nn.LinearLayerTT(si, so, rk, dtype=dtype, initializer=rng.choice(["He", "Glo"]))
+            cores = [np.array([rng.randint(-2, 2) for _ in range(rk[i] * so[i] * si[i] * rk[i + 1])], dtype=np.float64).reshape(rk[i], so[i], si[i], rk[i + 1]) for i in range(d)]
+            with torch.no_grad():
+                for p_, c in zip(L.cores, cores): p_.copy_(torch.tensor(c).to(dtype))
+                L.bias.copy_(torch.tensor(np.array([rng.randint(-2, 2) for _ in range(int(np.prod(so)))], dtype=np.float64).reshape(so)).to(dtype))
+            X = np.array([rng.randint(-2, 2) for _ in range(int(np.prod(B + si)))], dtype=np.float64).reshape(B + si)
+            Wt = np.array([rng.randint(-2, 2) for _ in range(int(np.prod(B + so)))], dtype=np.float64).reshape(B + so)
+            (L.forward(torch.tensor(X).to(dtype)) * torch.tensor(Wt).to(dtype)).sum().backward()
+            k_ = rng.randrange(d)
+            w2 = np.tensordot(Wt.reshape([-1] + so), X.reshape([-1] + si), axes=([0], [0]))                      # [m1..md, n1..nd]
+            w2 = w2.transpose([a for i in range(d) for a in (i, d + i)]).reshape([so[i] * si[i] for i in range(d)])     # merged modes (m_i, n_i) -> m_i * N_i + n_i
+            cs_ = "[" + ";".join("(%d%%nat,%d%%nat,%d%%nat,%s)" % (c.shape[0], c.shape[1] * c.shape[2], c.shape[3], coqrun.zlist(c.reshape(-1))) for c in cores) + "]"
+            g_ = L.cores[k_].grad.detach().to(torch.float64).numpy()
+            bg = L.bias.grad.detach().to(torch.float64).numpy()
+            if not np.array_equal(bg, Wt.reshape([-1] + so).sum(0)): V.fail("gradient of the bias differs from the sum of the upstream weights over the batch", {"so": so, "si": si, "batch": B})
+            cases.append("[check_core_grad (R:=Z) %s %d %s %s]" % (cs_, k_, coqrun.zlist(w2.reshape(-1)), coqrun.zlist(g_.reshape(-1))))
+            metas.append({"family": "layer core gradient vs Model/CoreGrad.v", "size_out": so, "size_in": si, "rank": rk, "batch": B, "core": k_, "dtype": str(dtype)})
+        except Exception as ex:
+            V.fail("layer core gradient raises %s" % type(ex).__name__, {"so": so, "si": si, "rank": rk, "exc": str(ex)[:200]})
+    n_ok = 0
+    if cases:
+        try:
+            codes = coqrun.eval_nat_lists("C20_cg", "From TT Require Import RingSig Instances Core CoreGrad.", "", cases, shard=40)
+            for dsc, c in zip(metas, codes):
+                if c != [0]: V.fail("correspondence(model/impl): the gradient autograd accumulates in a core of the layer differs from Model/CoreGrad.v", dict(dsc, model_code=c, expr=cases[metas.index(dsc)][:1200]))
+                else: n_ok += 1
+        except Exception as ex:
+            V.fail("layer core gradient correspondence: the model could not be evaluated", {"exc": str(ex)[:300]}, failing_input=False)
+    return {"layer_core_gradients_equal_model": n_ok}
+
 def run(tier, seed, replay=None):
     import torch
     dtypes = [(torch.float64, coqrun.Z), (torch.float32, coqrun.Z)]
-    return exprcheck.run(PID, tier, seed, gen_case, 200, 4000, RULE, nontrivial, dtypes, evaluate=evaluate)
+    return exprcheck.run(PID, tier, seed, gen_case, 200, 4000, RULE, nontrivial, dtypes, evaluate=evaluate, post=post)
